@@ -50,6 +50,11 @@ type Chan struct {
 }
 
 func NewChan(eltSize, cap int) *Chan {
+	// make(chan T, n): a negative or oversize n must panic (Go spec, "Making
+	// slices, maps and channels"), not silently yield an unbuffered channel.
+	if cap < 0 || (eltSize > 0 && uintptr(cap) > maxAlloc/uintptr(eltSize)) {
+		panic(plainError("makechan: size out of range"))
+	}
 	ret := new(Chan)
 	if cap > 0 {
 		ret.data = AllocU(uintptr(cap * eltSize))
